@@ -9,7 +9,7 @@ CONSTANTS
   WaitData = 0
   SockT = 0
   KF = {}
-  Cmds <- c_Cmds
+  Cmds <- c_CmdsS
   Datas = {}
   InitTree <- c_Tree
   Block = 2
